@@ -1832,9 +1832,13 @@ BTree_rangeSearch(BTree *self, PyObject *args, PyObject *kw, char type)
     /* The buckets differ, or they're the same and the offsets show a non-
     * empty range.
     */
-    if (min != Py_None && max != Py_None && /* both args user-supplied */
-        lowbucket != highbucket)   /* and different buckets */
+    if (lowbucket != highbucket)   /* different buckets */
     {
+        /* This is needed even when an end is not user-supplied:  an
+         * exclusive open end moves to the neighbouring bucket when the
+         * first (last) bucket holds a single key, which can carry it past
+         * the other end.
+         */
         KEY_TYPE first;
         KEY_TYPE last;
         int cmp;
